@@ -17,14 +17,19 @@ Variable MN : Type.
 Variable mt_verify_batch : D -> list nat -> list D -> MN -> nat -> auth_res.
 
 (* Merkle binding, stated for the abstract authentication function: two batch openings of the same root at the
-   same indexes with the same number of leaves claim the same leaves, or an explicit collision is computed *)
+   same indexes, of the SAME depth d >= 1 and with the same number of leaves, claim the same leaves, or an explicit
+   collision is computed.  (For independent depths the statement is false of a Merkle tree: an internal node can be
+   presented as a leaf of a shallower tree; in FRI the depth is fixed by the verifier: it is log2 of the layer's
+   domain size, see [parse_layer_leaves].)  The index lists are `list nat`, so the usize guard of
+   C10_batch_binding_two holds by construction.  Discharged for the Merkle model of C10 in Proofs/FriMerkleInst.v. *)
 Variable coll : Type.
 Variable find_merkle_collision : D -> list nat -> list D * MN * nat -> list D * MN * nat -> option coll.
 Variable is_merkle_collision : coll -> Prop.
-Hypothesis merkle_binding : forall root indexes l1 n1 d1 l2 n2 d2,
-  mt_verify_batch root indexes l1 n1 d1 = AuthOk -> mt_verify_batch root indexes l2 n2 d2 = AuthOk ->
+Hypothesis merkle_binding : forall root indexes l1 n1 l2 n2 d,
+  1 <= d ->
+  mt_verify_batch root indexes l1 n1 d = AuthOk -> mt_verify_batch root indexes l2 n2 d = AuthOk ->
   length l1 = length l2 ->
-  l1 = l2 \/ exists c, find_merkle_collision root indexes (l1, n1, d1) (l2, n2, d2) = Some c /\ is_merkle_collision c.
+  l1 = l2 \/ exists c, find_merkle_collision root indexes (l1, n1, d) (l2, n2, d) = Some c /\ is_merkle_collision c.
 
 (* first pair of different rows *)
 Fixpoint find_row_collision (rows1 rows2 : list (list F)) : option (list F * list F) :=
@@ -52,16 +57,18 @@ Lemma parse_layer_leaves N ds pl q leaves nodes d :
   parse_layer D hash_elements MN N ds pl = Some (Some (q, (leaves, nodes, d))) ->
   q = pl_values pl /\ nodes = pl_nodes pl /\
   leaves = map hash_elements (chunks (length (pl_values pl)) N (pl_values pl)) /\
-  group_slice N q = Ok (chunks (length (pl_values pl)) N (pl_values pl)).
+  group_slice N q = Ok (chunks (length (pl_values pl)) N (pl_values pl)) /\
+  (* the depth at which the opening is checked is fixed by the layer's domain size *)
+  d = Nat.log2 ds /\ 1 <= d.
 Proof.
   unfold parse_layer, group_slice.
   destruct (N =? 0); [discriminate|].
   destruct (length (pl_values pl) mod N =? 0) eqn:Em; cbn [negb]; [|discriminate].
   destruct (length (pl_values pl) / N =? 0); [discriminate|].
   destruct (ds =? 0); [discriminate|].
-  destruct (Nat.log2 ds =? 0); [discriminate|].
+  destruct (Nat.log2 ds =? 0) eqn:Ed; [discriminate|].
   destruct (255 <? _); [discriminate|].
-  intros [= <- <- <- <-]. rewrite Em. cbn. auto.
+  intros [= <- <- <- <-]. rewrite Em. cbn. apply Nat.eqb_neq in Ed. repeat split; auto. lia.
 Qed.
 
 (* fri_binding: two decoded proof layers, both parsed by the channel, both authenticating against the same layer
@@ -79,10 +86,10 @@ Theorem fri_binding : forall N ds pl1 pl2 q1 q2 l1 l2 n1 n2 d1 d2 commitment ind
      (exists c, find_merkle_collision commitment indexes (l1, n1, d1) (l2, n2, d2) = Some c /\ is_merkle_collision c)).
 Proof.
   intros N ds pl1 pl2 q1 q2 l1 l2 n1 n2 d1 d2 commitment indexes P1 P2 A1 A2 Hlen.
-  apply parse_layer_leaves in P1. destruct P1 as [-> [-> [-> G1]]].
-  apply parse_layer_leaves in P2. destruct P2 as [-> [-> [-> G2]]].
+  apply parse_layer_leaves in P1. destruct P1 as [-> [-> [-> [G1 [-> Hd]]]]].
+  apply parse_layer_leaves in P2. destruct P2 as [-> [-> [-> [G2 [-> _]]]]].
   eexists. eexists. split; [exact G1|]. split; [exact G2|].
-  destruct (merkle_binding _ _ _ _ _ _ _ _ A1 A2 Hlen) as [E|C].
+  destruct (merkle_binding _ _ _ _ _ _ _ Hd A1 A2 Hlen) as [E|C].
   - rewrite !map_length in Hlen. destruct (rows_binding _ _ Hlen E) as [R|R]; auto.
   - right. right. exact C.
 Qed.
